@@ -389,10 +389,10 @@ def byte_at(r, i):
                 return p[1][core.concrete(rel, cap=4096)]
             if k == 'fld':
                 if p[2] == 1 and not p[3]:
-                    return SxInt.wrap(p[1])
-                return SxInt.wrap(split_fld(p)[core.concrete(rel)][1])
+                    return SxInt.wrap(p[1], m=255)
+                return SxInt.wrap(split_fld(p)[core.concrete(rel)][1], m=255)
             if k == 'view':
-                return SxInt.wrap(p[1].byte(p[2] + _zi(rel)))
+                return SxInt.wrap(p[1].byte(p[2] + _zi(rel)), m=255)
             raise Unsupported('byte of opaque field')
         off = end
     raise IndexError('index out of range')
